@@ -72,6 +72,36 @@ type rec struct {
 
 var lateHistories int32
 
+// hiccups: moments at which this process was not scheduled for more than 8 ms (measured by a goroutine that sleeps 1 ms
+// at a time).  A history during whose life such a pause happened is not judged: the timing of its events says nothing.
+var (
+	hicMu   sync.Mutex
+	hiccups []time.Time
+)
+
+func heartbeat() {
+	for {
+		t0 := time.Now()
+		time.Sleep(time.Millisecond)
+		if d := time.Since(t0); d > 9*time.Millisecond {
+			hicMu.Lock()
+			hiccups = append(hiccups, t0)
+			hicMu.Unlock()
+		}
+	}
+}
+
+func hiccupBetween(a, b time.Time) bool {
+	hicMu.Lock()
+	defer hicMu.Unlock()
+	for _, h := range hiccups {
+		if !h.Before(a.Add(-10*time.Millisecond)) && !h.After(b) {
+			return true
+		}
+	}
+	return false
+}
+
 func (r *rec) add(e hlib.Ev) {
 	if _, ok := e["ts"]; !ok {
 		e["ts"] = us(time.Now())
@@ -204,6 +234,9 @@ func runCoreBatch(mode string, list []hist, unit time.Duration, slack time.Durat
 							r.mu.Unlock()
 						}
 						dl := now.Add(time.Duration(o.D)*unit + unit/2) // expires mid-tick: >= unit/2 away from every operation
+						if o.D == 0 && (o.Op == "setr" || o.Op == "setw" || o.Op == "setrw") {
+							dl = now.Add(-unit / 2) // a deadline that is already past when it is set
+						}
 						switch o.Op {
 						case "setr":
 							r.add(hlib.Ev{"ev": "set", "kind": "r", "at": us(dl)})
@@ -241,6 +274,9 @@ func runCoreBatch(mode string, list []hist, unit time.Duration, slack time.Durat
 					}
 					time.Sleep(time.Until(start.Add(time.Duration(h.End)*unit + slack + 100*time.Millisecond)))
 					r.mu.Lock()
+					if hiccupBetween(start, start.Add(time.Duration(h.End)*unit+unit)) {
+						r.late = true
+					}
 					cl := r.cl
 					r.mu.Unlock()
 					r.add(hlib.Ev{"ev": "end", "at": us(time.Now()), "closed": cl})
@@ -274,7 +310,7 @@ func runCoreBatch(mode string, list []hist, unit time.Duration, slack time.Durat
 }
 
 // ---- keep-alive legs: the observer is a raw client that notes when the server closes ----
-func runKeepalive(id string, ws bool, iomod int, httpKA, wsKA time.Duration, requests int, gap time.Duration, slack time.Duration) {
+func runKeepalive(id string, ws bool, ping bool, iomod int, httpKA, wsKA time.Duration, requests int, gap time.Duration, slack time.Duration) {
 	mux := &http.ServeMux{}
 	mux.HandleFunc("/", func(w http.ResponseWriter, r *http.Request) { w.Write([]byte("ok")) })
 	u := websocket.NewUpgrader()
@@ -312,8 +348,12 @@ func runKeepalive(id string, ws bool, iomod int, httpKA, wsKA time.Duration, req
 		ka = wsKA
 		for i := 0; i < requests; i++ {
 			time.Sleep(gap)
-			// masked text frame "hi"
-			c.Write([]byte{0x81, 0x82, 1, 2, 3, 4, 'h' ^ 1, 'i' ^ 2})
+			// masked text frame "hi" (echoed), or a masked ping "hi" (answered by a pong): both are activity
+			op := byte(0x81)
+			if ping {
+				op = 0x89
+			}
+			c.Write([]byte{op, 0x82, 1, 2, 3, 4, 'h' ^ 1, 'i' ^ 2})
 			last = time.Now()
 			buf := make([]byte, 4)
 			io.ReadFull(br, buf)
@@ -393,10 +433,12 @@ func main() {
 	wg.Add(1)
 	go func() { defer wg.Done(); runCore(hs, unit, slack) }()
 	n := len(hs)
+	go heartbeat()
 	if *ka {
 		type kcase struct {
 			id           string
 			ws           bool
+			ping         bool
 			iomod        int
 			httpKA, wsKA time.Duration
 			req          int
@@ -405,11 +447,13 @@ func main() {
 		for _, iom := range []int{nbhttp.IOModNonBlocking, nbhttp.IOModBlocking} {
 			name := map[int]string{nbhttp.IOModNonBlocking: "nonblocking", nbhttp.IOModBlocking: "blocking"}[iom]
 			cases = append(cases,
-				kcase{"http-keepalive-" + name + "-1req", false, iom, 400 * time.Millisecond, 0, 1},
-				kcase{"http-keepalive-" + name + "-3req", false, iom, 400 * time.Millisecond, 0, 3},
-				kcase{"ws-keepalive-longer-" + name, true, iom, 300 * time.Millisecond, 900 * time.Millisecond, 1},
-				kcase{"ws-keepalive-shorter-" + name, true, iom, 900 * time.Millisecond, 300 * time.Millisecond, 2},
-				kcase{"ws-keepalive-off-" + name, true, iom, 300 * time.Millisecond, 0, 0},
+				kcase{"http-keepalive-" + name + "-1req", false, false, iom, 400 * time.Millisecond, 0, 1},
+				kcase{"http-keepalive-" + name + "-3req", false, false, iom, 400 * time.Millisecond, 0, 3},
+				kcase{"ws-keepalive-longer-" + name, true, false, iom, 300 * time.Millisecond, 900 * time.Millisecond, 1},
+				kcase{"ws-keepalive-shorter-" + name, true, false, iom, 900 * time.Millisecond, 300 * time.Millisecond, 2},
+				kcase{"ws-keepalive-off-" + name, true, false, iom, 300 * time.Millisecond, 0, 0},
+				// a peer that keeps the connection alive with pings only: 5 pings, 150 ms apart, keep-alive 400 ms
+				kcase{"ws-keepalive-pings-" + name, true, true, iom, 900 * time.Millisecond, 400 * time.Millisecond, 5},
 			)
 		}
 		for _, k := range cases {
@@ -418,7 +462,7 @@ func main() {
 			wg.Add(1)
 			go func() {
 				defer wg.Done()
-				runKeepalive(k.id, k.ws, k.iomod, k.httpKA, k.wsKA, k.req, 150*time.Millisecond, slack)
+				runKeepalive(k.id, k.ws, k.ping, k.iomod, k.httpKA, k.wsKA, k.req, 150*time.Millisecond, slack)
 			}()
 		}
 	}
